@@ -172,7 +172,10 @@ CallEv ==
 \* already deviated) and validation resumes at the next init event, so one trace can report several findings.
 Next == /\ l <= Len(Tr) /\ l' = l + 1
         /\ IF bad # "" /\ Ev.e # "I"
-           THEN UNCHANGED <<buf, root, maxd, pr, c, mode, stk, on, allOk, prevErr, d0, bad, nA, nS, hist, full>>
+           THEN /\ UNCHANGED <<buf, root, maxd, pr, c, mode, stk, on, allOk, prevErr, d0, bad, nA, nS, hist, full>>
+                \* a transcription starts with a reset of its own: it is specified whatever went wrong before it
+                /\ (Ev.e = "xc" /\ pr.ok /\ Ev.ret # 1 =>
+                      PrintT("TRACE-VIOLATION " \o Msg("C10", "decode-then-encode did not reproduce a well-formed document")))
            ELSE (InitEv \/ AgainEv \/ XcEv \/ CallEv) /\ (bad' # "" => PrintT("TRACE-VIOLATION " \o bad'))
         /\ (l' > Len(Tr) => PrintT(<<"TRACE-SUMMARY", Len(Tr), nA', nS'>>))
 Spec == Init /\ [][Next]_vars
